@@ -33,6 +33,7 @@
 #include <string.h>
 #include <unistd.h>
 #include <ucontext.h>
+#include <setjmp.h>
 
 #include "pmem.h"
 #include "pmutex.h"
@@ -96,6 +97,7 @@ P_LIB_API PMutex *p_mutex_new (void) { PMutex *m = calloc (1, sizeof *m); if (m)
 P_LIB_API void p_mutex_free (PMutex *m) { free (m); }
 #define ME (cur < 0 ? -2 : cur)
 static int main_ctx_blocked = 0;      /* the scheduler's own context met a mutex that is owned / a wait */
+static jmp_buf main_ctx_jb;           /* a wait reached from the scheduler's context cannot return: leave the call */
 P_LIB_API pboolean p_mutex_lock (PMutex *m) {
 	yield_at (ST_L, NULL);
 	if (cur < 0 && m->owner != -1) { main_ctx_blocked = 1; return FALSE; }
@@ -119,7 +121,7 @@ P_LIB_API pboolean p_mutex_unlock (PMutex *m) {
 P_LIB_API PCondVariable *p_cond_variable_new (void) { return calloc (1, sizeof (PCondVariable)); }
 P_LIB_API void p_cond_variable_free (PCondVariable *c) { free (c); }
 P_LIB_API pboolean p_cond_variable_wait (PCondVariable *c, PMutex *m) {
-	if (cur < 0) { main_ctx_blocked = 1; return FALSE; }
+	if (cur < 0) { main_ctx_blocked = 1; longjmp (main_ctx_jb, 1); }
 	yield_at (ST_W, c);
 	if (m->owner != cur) { fprintf (out, "harness-error: wait without owning the mutex\n"); fflush (out); abort (); }
 	m->owner = -1;                 /* atomically release and block */
@@ -326,6 +328,7 @@ static const char *do_twin (void) {
 	l2 = p_rwlock_new ();
 	if (l2 == NULL) return "!NEW-FAILED";
 	if (l2 == g_lock) return "!SAME-OBJECT";
+	if (setjmp (main_ctx_jb)) return "!TRYBLOCK(a-trylock-or-unlock-on-the-second-lock-reached-p_cond_variable_wait)";
 	if (l2->mutex == g_lock->mutex || l2->read_cv == g_lock->read_cv || l2->write_cv == g_lock->write_cv) res = "!SHARED-PARTS";
 	else if (p_rwlock_writer_trylock (l2) != TRUE) res = "!NOT-INDEPENDENT(writer-trylock-on-a-fresh-lock-failed)";
 	else if (p_rwlock_reader_trylock (l2) != FALSE) res = "!UNSAFE(reader-trylock-granted-under-a-writer)";
@@ -340,6 +343,7 @@ static const char *do_twin (void) {
 }
 
 static int do_null (int op) {
+	if (setjmp (main_ctx_jb)) return 1;
 	switch (op) {
 	case OP_RLOCK: return p_rwlock_reader_lock (NULL) != FALSE;
 	case OP_WLOCK: return p_rwlock_writer_lock (NULL) != FALSE;
